@@ -12,6 +12,7 @@ import Emboss.Lemmas.TypesLoc
 import Emboss.Lemmas.TypesSub
 import Emboss.Lemmas.TypesMod
 import Emboss.Lemmas.TypesNat
+import Emboss.Lemmas.BoundsSound
 namespace Emboss.Types
 
 private def L (n : Nat) : Loc := ⟨n, false⟩
@@ -188,43 +189,118 @@ theorem C13_enum_value_counterexample :
 
 /-- Given that `annotate_types` accepted the value, an attribute validator is silent exactly
 when the value is what the attribute's kind demands: `[requires]`/`[static_requirements]` a
-boolean expression; `[is_signed]`/`[is_integer]` a constant (closed) boolean expression;
-`[addressable_unit_size]`/`[maximum_bits]`/`[fixed_size_in_bits]` a constant (closed) integer
-expression; `[byte_order]`/`[text_output]` a listed string; `[expected_back_ends]` a
+boolean expression; `[is_signed]`/`[is_integer]` a constant boolean expression;
+`[addressable_unit_size]`/`[maximum_bits]`/`[fixed_size_in_bits]` a constant integer
+expression (constant = `Attr.constOk`: C05's `constant_value` / bounds verdict when the value is
+given in C05's language, closedness otherwise); `[byte_order]`/`[text_output]` a listed string; `[expected_back_ends]` a
 well-formed list.  A value of any other kind (string for expression, expression for string)
 is reported, never raised on. -/
 theorem C13_attr_value_ok (a : Attr) (ht : ∀ e, a.val = .expr e → Typed (a.file, e)) :
     ((attrOne a).errs = [] ∧ (attrOne a).crash = none) ↔ AttrOk a :=
   attrOne_ok a ht
 
-example : (attrOne ⟨0, L 1, .bool, false, .expr (.num (L 2))⟩).errs = [⟨L 1, 0, .attrBool, []⟩] ∧
-    (attrOne ⟨0, L 1, .boolConst, true, .expr (.num (L 2))⟩).errs = [⟨L 1, 0, .attrConstBool, []⟩] ∧
-    (attrOne ⟨0, L 1, .backEnds, false, .expr (.num (L 2))⟩).errs = [⟨L 1, 0, .attrString, []⟩] ∧
-    (attrOne ⟨0, L 1, .intConst, false, .expr (.bin (L 2) .add (.num (L 3)) (.num (L 4)))⟩).errs = [] := by
+example : (attrOne ⟨0, L 1, .bool, false, .expr (.num (L 2)), none⟩).errs = [⟨L 1, 0, .attrBool, []⟩] ∧
+    (attrOne ⟨0, L 1, .boolConst, true, .expr (.num (L 2)), none⟩).errs = [⟨L 1, 0, .attrConstBool, []⟩] ∧
+    (attrOne ⟨0, L 1, .backEnds, false, .expr (.num (L 2)), none⟩).errs = [⟨L 1, 0, .attrString, []⟩] ∧
+    (attrOne ⟨0, L 1, .intConst, false, .expr (.bin (L 2) .add (.num (L 3)) (.num (L 4))), none⟩).errs = [] := by
   decide
 
-/-- Attribute constancy: an accepted value of a constant-demanding attribute (`[is_signed]`,
-`[is_integer]`, `[addressable_unit_size]`, `[maximum_bits]`, `[fixed_size_in_bits]`) mentions
-no field, parameter or builtin — not in any sub-expression, nor inside the definition of any
-`let` field it refers to, in whatever module. -/
+/-- Attribute constancy, syntactic half (the value is judged by closedness, `a.cst = none`): an
+accepted value of a constant-demanding attribute (`[is_signed]`, `[is_integer]`,
+`[addressable_unit_size]`, `[maximum_bits]`, `[fixed_size_in_bits]`) mentions no field,
+parameter or builtin — not in any sub-expression, nor inside the definition of any `let` field
+it refers to, in whatever module. -/
 theorem C13_constant_attr_mentions_no_field (a : Attr) (e : Expr)
     (ht : Typed (a.file, e)) (hv : a.val = .expr e) (hk : a.kind = .boolConst ∨ a.kind = .intConst)
+    (hcst : a.cst = none)
     (hok : (attrOne a).errs = [] ∧ (attrOne a).crash = none) :
     ∀ p ∈ parts a.file e, (∀ l t, p.2 ≠ .lphys l t) ∧ (∀ l t, p.2 ≠ .lparam l t) ∧
       (∀ l, p.2 ≠ .lparamArr l) ∧ (∀ l b, p.2 ≠ .builtin l b) := by
   have h := (attrOne_ok a (fun e' he' => by rw [hv] at he'; cases he'; exact ht)).1 hok
   have hc : closed e = true := by
     unfold AttrOk at h
-    rcases hk with hk | hk <;> rw [hk, hv] at h <;> exact h.2
+    have hq : a.constOk e = true := by
+      rcases hk with hk | hk <;> rw [hk, hv] at h <;> exact h.2
+    simpa [Attr.constOk, hcst] using hq
   intro p hp
   exact closed_not_ref (parts_closed e a.file hc p hp)
+
+/-- Attribute constancy, semantic half (the value is judged by C05's model, `a.cst = some b`):
+an accepted value of a constant-demanding attribute has ONE value — whatever the fields,
+parameters and `$static_size_in_bits` it mentions hold (every environment `ρ` whose leaves are
+values of their physical types), `b` evaluates to the same `v` (`normB b` is `b` with static
+references to non-constant fields read as plain references: same evaluation).  This covers the values that
+fold to a constant although they mention a field (`false && x == 1`, `$upper_bound(x)`, a
+static reference to `let v = x * 0`), which closedness rejects and the compiler accepts.
+(Through C05's soundness theorems: `constant_value` agrees with evaluation; an annotated
+boolean value is the value.) -/
+theorem C13_constant_attr_has_one_value (a : Attr) (e : Expr) (b : Emboss.Bounds.Expr)
+    (ht : Typed (a.file, e)) (hv : a.val = .expr e) (hk : a.kind = .boolConst ∨ a.kind = .intConst)
+    (hcst : a.cst = some b)
+    (hok : (attrOne a).errs = [] ∧ (attrOne a).crash = none) :
+    ∃ v, ∀ ρ w, Emboss.Bounds.EnvOk ρ (normB b) → Emboss.Bounds.eval ρ (normB b) = some w → w = v := by
+  have h := (attrOne_ok a (fun e' he' => by rw [hv] at he'; cases he'; exact ht)).1 hok
+  unfold AttrOk at h
+  rcases hk with hk | hk
+  · rw [hk, hv] at h
+    have hq : constBoolB (normB b) = true := by simpa [Attr.constOk, hcst, hk] using h.2
+    unfold constBoolB at hq
+    split at hq
+    · rename_i x hx
+      refine ⟨.bool x, fun ρ w henv hev => ?_⟩
+      have hg := (Emboss.Bounds.sound_aux ρ (normB b) henv).1 _ w hx hev
+      cases w with
+      | bool y => simp only [Emboss.Bounds.GammaT] at hg; rw [hg x rfl]
+      | int _ => exact absurd hg (by simp [Emboss.Bounds.GammaT])
+      | enum _ => exact absurd hg (by simp [Emboss.Bounds.GammaT])
+    · cases hq
+  · rw [hk, hv] at h
+    have hq : constIntB (normB b) = true := by simpa [Attr.constOk, hcst, hk] using h.2
+    unfold constIntB at hq
+    split at hq
+    · rename_i x hx
+      exact ⟨x, fun ρ w henv hev => (Emboss.Bounds.sound_aux ρ (normB b) henv).2 w hev x hx⟩
+    · cases hq
+
+/-- non-vacuity / the folding shapes: `[maximum_bits: (false && x == 1) ? 4 : 8]` (three-valued
+`&&`, then `?:`), `[maximum_bits: $upper_bound(x)]` with `x` an 8-bit `UInt` (the bound is the
+constant 255), `[fixed_size_in_bits: Foo.v + 8]` with `let v = x * 0` (the bounds of `v` are
+0…0) and `[is_signed: $upper_bound(x) == 255]` are accepted when the value is given in C05's
+language; judged by closedness alone each is "not constant".  `[maximum_bits: x]` is not
+constant either way, and neither is `[is_signed: false && x == 1]`: the bounds pass gives a
+boolean a value only when *all* operands are constant, although `constant_value` folds it. -/
+example :
+    let x : Emboss.Bounds.Expr := .ileaf 0 .uint (some 8)
+    let a1 : Attr := ⟨0, L 1, .intConst, false,
+      .expr (.choice (L 2) (.bin (L 3) .and (.boolc (L 4)) (.bin (L 5) .eq (.lphys (L 6) .int) (.num (L 7))))
+        (.num (L 8)) (.num (L 9))),
+      some (.choice (.bin .and (.bconst false) (.bin .eq x (.const 1))) (.const 4) (.const 8))⟩
+    let a2 : Attr := ⟨0, L 1, .intConst, false, .expr (.fn (L 2) .upper [.lphys (L 3) .int]),
+      some (.upper x)⟩
+    let a3 : Attr := ⟨0, L 1, .intConst, false,
+      .expr (.bin (L 2) .add (.cvirt (L 3) 0 (.bin (L 7) .mul (.lphys (L 8) .int) (.num (L 9)))) (.num (L 4))),
+      some (.bin .add (.cref (.bin .mul x (.const 0))) (.const 8))⟩
+    let a4 : Attr := ⟨0, L 1, .intConst, false, .expr (.lphys (L 3) .int), some x⟩
+    let a5 : Attr := ⟨0, L 1, .boolConst, true,
+      .expr (.bin (L 2) .and (.boolc (L 3)) (.bin (L 4) .eq (.lphys (L 5) .int) (.num (L 6)))),
+      some (.bin .and (.bconst false) (.bin .eq x (.const 1)))⟩
+    let a6 : Attr := ⟨0, L 1, .boolConst, true,
+      .expr (.bin (L 2) .eq (.fn (L 3) .upper [.lphys (L 5) .int]) (.num (L 6))),
+      some (.bin .eq (.upper x) (.const 255))⟩
+    (attrOne a1).errs = [] ∧ (attrOne a2).errs = [] ∧ (attrOne a3).errs = [] ∧ (attrOne a6).errs = [] ∧
+    (attrOne { a1 with cst := none }).errs = [⟨L 1, 0, .attrConst, []⟩] ∧
+    (attrOne { a2 with cst := none }).errs = [⟨L 1, 0, .attrConst, []⟩] ∧
+    (attrOne { a3 with cst := none }).errs = [⟨L 1, 0, .attrConst, []⟩] ∧
+    (attrOne { a6 with cst := none }).errs = [⟨L 1, 0, .attrConstBool, []⟩] ∧
+    (attrOne a4).errs = [⟨L 1, 0, .attrConst, []⟩] ∧
+    (attrOne a5).errs = [⟨L 1, 0, .attrConstBool, []⟩] := by decide +kernel
 
 /-- non-vacuity: `[fixed_size_in_bits: 8 + 8]` is accepted; `[fixed_size_in_bits: x]` and
 `[is_integer: $is_statically_sized]` are reported as not constant. -/
 example :
-    (attrOne ⟨0, L 1, .intConst, false, .expr (.bin (L 2) .add (.num (L 3)) (.num (L 4)))⟩).errs = [] ∧
-    (attrOne ⟨0, L 1, .intConst, false, .expr (.lphys (L 2) .int)⟩).errs = [⟨L 1, 0, .attrConst, []⟩] ∧
-    (attrOne ⟨0, L 1, .boolConst, false, .expr (.builtin (L 2) .isStaticallySized)⟩).errs
+    (attrOne ⟨0, L 1, .intConst, false, .expr (.bin (L 2) .add (.num (L 3)) (.num (L 4))), none⟩).errs = [] ∧
+    (attrOne ⟨0, L 1, .intConst, false, .expr (.lphys (L 2) .int), none⟩).errs = [⟨L 1, 0, .attrConst, []⟩] ∧
+    (attrOne ⟨0, L 1, .boolConst, false, .expr (.builtin (L 2) .isStaticallySized), none⟩).errs
       = [⟨L 1, 0, .attrConstBool, []⟩] := by decide
 
 /-! ### The pipeline (`annotate_types`, `check_types`, attribute validators) -/
@@ -305,7 +381,7 @@ synthetic (model only: user-written parameters never are). -/
 theorem C13_total_counterexample :
     run { exMod with
       exprs := exMod.exprs ++ [(0, .bin (L 12) .eq (.num (L 13)) (.num (L 14)))],
-      attrs := [⟨0, L 11, .boolConst, true, .expr (.bin (L 12) .eq (.num (L 13)) (.num (L 14)))⟩] }
+      attrs := [⟨0, L 11, .boolConst, true, .expr (.bin (L 12) .eq (.num (L 13)) (.num (L 14))), none⟩] }
       = .crashed .attrSignedNotLiteral ∧
     run { exMod with params := [⟨0, ⟨1, true⟩, .array⟩] } = .crashed .paramTypeNone := by decide
 
